@@ -632,9 +632,11 @@ def stub_rows(rng, thorough):
                 r2s.append(Res(succ, msg, pts[lab], neg * objective_at(spec, pts[lab]), 7))
         k = 0
         for method in METHODS + ["auto"]:
-            for tol in (None, 1e-3):
+            for tol in (None, 1e-3, 0.0, 1e-9):
                 for lab in labels:
                     if tol is not None and lab not in ("feas", "viol-con", "viol-lb", "just-out", "eq-out", "lb-out", "ub-out"):
+                        continue
+                    if tol in (0.0, 1e-9) and (lab not in ("feas", "just-out", "eq-out", "lb-out") or method not in ("SLSQP", "BFGS", "auto")):
                         continue
                     for succ in (True, False):
                         for msg in MESSAGES:
@@ -715,12 +717,14 @@ def rand_spec(rng, linear=False, infeasible=None):
     """a small generated problem; data are dyadic.  `infeasible`: None (as it comes), or a way of
     making it infeasible: 'cons' (two contradicting constraints), 'bound' (constraint against a bound)"""
     n = rng.randint(1, 3)
+    names = rng.choice([["v0", "v1", "v2"], ["x10", "x2", "x1"], ["x01", "x1", "x001"], ["a[10]", "a[9]", "a"],
+                        ["ab", "a", "abc"], ["y2z10", "y2z9", "y10z1"]])
     vars_ = []
     for i in range(n):
         kind = rng.randint(0, 3)
         lb = rng.choice([0.0, -1.0, 1.0, -2.0]) if kind in (0, 1) else None
         ub = (lb if lb is not None else 0.0) + rng.choice([1.0, 2.0, 4.0]) if kind in (0, 2) else None
-        vars_.append([f"v{i}", lb, ub, "continuous"])
+        vars_.append([names[i], lb, ub, "continuous"])
     obj = []
     for i in range(n):
         t = rng.dy(-2, 2)
@@ -1079,6 +1083,309 @@ def run_operator_alphabet(rep, rng, thorough):
                         rep.oracle_failures.append(bad)
 
 
+# ----------------------------------------------------------------------------- magnitudes and numeric types
+
+MAGNITUDES = [1e-12, 1e-9, 9e-9, 2e-8, 1e-7, 1e-3, 1.0, 7.0, 1e4, 1e8, 1e12]
+NUM_KINDS = ["float", "int", "np.float64", "np.float32", "np.int64", "np.int32", "np.uint8", "np.int8", "np.float16", "bool", "0-d"]
+
+
+def typed_number(v, kind):
+    with np.errstate(all="ignore"):
+        return _typed_number(v, kind)
+
+
+def _typed_number(v, kind):
+    f = {"float": float, "int": lambda t: int(t), "np.float64": np.float64, "np.float32": np.float32,
+         "np.int64": lambda t: np.int64(int(t)), "np.int32": lambda t: np.int32(int(t)), "np.uint8": lambda t: np.uint8(int(t)),
+         "np.int8": lambda t: np.int8(int(t)), "np.float16": np.float16, "bool": lambda t: bool(t), "0-d": lambda t: np.array(float(t))}[kind]
+    return f(v)
+
+
+def magnitude_case(data):
+    """k·(a·x + b·y) sense k·rhs with the scale k over 24 orders of magnitude, bounds given as numbers of every
+    numeric type; the truth is computed from the Python floats the user's numbers denote"""
+    from optyx import Problem, Variable
+
+    k, kind = data["k"], data["kind"]
+    lbv, ubv, rhsv, av = data["lb"], data["ub"], data["rhs"], data["a"]
+    tn = lambda t: typed_number(t, kind)  # noqa: E731
+    try:
+        lb, ub, a = tn(lbv), tn(ubv), tn(av)
+        fl = lambda t: float(np.asarray(t))  # noqa: E731  (what the typed number denotes)
+        x = Variable("x", lb=lb, ub=ub)
+        y = Variable("y", lb=-5.0, ub=5.0)
+        # the scale is a Python float; only `a` and the bounds carry the numeric type under test
+        lhs = (k * float(np.asarray(a))) * x + k * y if data["mul_first"] else k * (a * x + y)
+        P = Problem()
+        obj = x + y if not data["nonlinear"] else (x - 9.0) ** 2 + (y - 9.0) ** 2
+        P.minimize(obj) if data["objsense"] == "min" else P.maximize(obj if not data["nonlinear"] else -1.0 * obj)
+        r = k * rhsv
+        P.subject_to(lhs <= r if data["sense"] == "<=" else lhs >= r if data["sense"] == ">=" else lhs.eq(r))
+    except Exception as e:  # noqa: BLE001
+        return None, "unbuildable:" + type(e).__name__
+    with warnings.catch_warnings(), np.errstate(all="ignore"):
+        warnings.simplefilter("ignore")
+        try:
+            sol = P.solve(method=data["method"], **({} if data["tol"] is None else {"tol": data["tol"]}))
+        except Exception as e:  # noqa: BLE001
+            return None, "raise:" + type(e).__name__
+    if sol.status.name != "OPTIMAL":
+        return None, sol.status.name
+    xv, yv = sol.values["x"], sol.values["y"]
+    atol = data["tol"] if data["tol"] is not None else 1e-6
+    g = k * (fl(a) * xv + yv) - k * rhsv
+    viol = max(0.0, g) if data["sense"] == "<=" else max(0.0, -g) if data["sense"] == ">=" else abs(g)
+    allowed = atol + RTOL * max(1.0, abs(g)) + 1e-7 + 1e-9 * abs(k) * (abs(fl(a) * xv) + abs(yv) + abs(rhsv))
+    if not viol <= allowed:
+        return {"what": "scaled constraint violated at the returned point", "violation": viol, "allowed": allowed,
+                "values": dict(sol.values)}, "OPTIMAL"
+    for val, lo, hi in ((xv, fl(lb), fl(ub)), (yv, -5.0, 5.0)):
+        if val < lo - (atol + RTOL * max(1.0, abs(lo)) + 1e-7) or val > hi + (atol + RTOL * max(1.0, abs(hi)) + 1e-7):
+            return {"what": "bound violated at the returned point (bounds given as " + kind + ")", "value": val,
+                    "bounds": [lo, hi], "values": dict(sol.values)}, "OPTIMAL"
+    return None, "OPTIMAL"
+
+
+def run_magnitudes_types(rep, rng, thorough):
+    methods = ["auto"] + LP_METHODS + ["SLSQP", "trust-constr", "L-BFGS-B", "COBYLA"]
+    i = 0
+    for k in MAGNITUDES + [-m for m in MAGNITUDES[::3]]:
+        for kind in NUM_KINDS:
+            for sense in ("<=", ">=", "=="):
+                i += 1
+                if not thorough and i % 3:
+                    continue
+                integral = kind not in ("float", "np.float64", "np.float32", "np.float16", "0-d")
+                lo, hi = (0, 1) if kind == "bool" else (rng.choice([0, 1, 2]), rng.choice([3, 5, 100])) if integral else (
+                    rng.choice([0.5, -1.5, 0.0]), rng.choice([2.5, 4.0, 1024.0 if kind == "np.float16" else 1e6]))
+                nonlinear = i % (4 if thorough else 9) == 1
+                data = {"k": k, "kind": kind, "sense": sense, "lb": lo, "ub": hi, "a": 1 if kind == "bool" else rng.choice([1, 2, 3]),
+                        "rhs": rng.choice([lo + 0.5, hi + 2.0, float(hi)] + ([lo - 7.0] if thorough or not nonlinear else [])),
+                        "mul_first": bool(i % 2),
+                        "nonlinear": nonlinear, "objsense": "min" if (i // 2) % 2 else "max",
+                        "method": rng.choice(["SLSQP", "trust-constr", "L-BFGS-B", "auto"] if nonlinear else
+                                             (methods if thorough else methods[:-1])),
+                        "tol": rng.choice([None, None, 0.0, 1e-9, 1e-3])}
+                if data["method"] in LP_METHODS + ["COBYLA", "L-BFGS-B"] or (data["method"] == "auto" and not nonlinear):
+                    data["tol"] = None     # tol is forwarded as a keyword that these solvers do not take
+                bad, status = magnitude_case(data)
+                rep.evaluations += 1
+                tag = f"magnitude:{status}"
+                rep.histogram[tag] = rep.histogram.get(tag, 0) + 1
+                if status == "OPTIMAL":
+                    rep.nontrivial.add(hash(("mag", str(data))))
+                if bad is not None:
+                    bad.update({"kind_of_case": "magnitude", "data": data})
+                    rep.oracle_failures.append(bad)
+
+
+# ----------------------------------------------------------------------------- container-level constraints
+
+
+def container_case(data):
+    """constraints written on vectors, views (unit / strided / reversed, equal labels), matrix-vector products,
+    matrix rows / columns / diagonals, symmetric matrices, a 450-term chain; the truth is NumPy on the values"""
+    from optyx import MatrixVariable, Problem, VectorVariable
+
+    n = 4
+    x = VectorVariable("x", n, lb=-2.0, ub=3.0)
+    M = MatrixVariable("M", 2, 2, lb=-1.0, ub=2.0)
+    S = MatrixVariable("S", 2, 2, lb=-1.0, ub=2.0, symmetric=True)
+    A = np.array(data["A"], dtype=float)
+    b = np.array(data["b"], dtype=float)
+    keep = [(A, A.copy()), (b, b.copy())]
+    X = lambda v: np.array([v.get(f"x[{i}]", np.nan) for i in range(n)])  # noqa: E731
+    Mv = lambda v: np.array([[v.get(f"M[{i},{j}]", np.nan) for j in range(2)] for i in range(2)])  # noqa: E731
+    Sv = lambda v: np.array([[v.get(f"S[{min(i, j)},{max(i, j)}]", np.nan) for j in range(2)] for i in range(2)])  # noqa: E731
+    r = data["rhs"]
+    forms = {
+        "A@x<=b": (lambda: A @ x <= b, lambda v: A @ X(v) - b, "<="),
+        "x>=b4": (lambda: x >= b[0], lambda v: X(v) - b[0], ">="),
+        "x[::-1]<=arr": (lambda: x[::-1] <= np.array([r, r + 1, r + 2, r + 3]), lambda v: X(v)[::-1] - np.array([r, r + 1, r + 2, r + 3]), "<="),
+        "x[::2].sum()>=r": (lambda: x[::2].sum() >= r, lambda v: np.array([X(v)[::2].sum() - r]), ">="),
+        "labels:x[0:4:2]|x[0:4:3]": (lambda: [x[0:4:2].sum() <= r, x[0:4:3].sum() >= r - 1.0],
+                                     lambda v: np.array([X(v)[0:4:2].sum() - r, -(X(v)[0:4:3].sum() - (r - 1.0))]), "<="),
+        "x.dot(x)<=r2": (lambda: x.dot(x) <= abs(r) + 1.0, lambda v: np.array([X(v) @ X(v) - abs(r) - 1.0]), "<="),
+        "M.sum()<=r": (lambda: M.sum() <= r, lambda v: np.array([Mv(v).sum() - r]), "<="),
+        "S.sum()>=r": (lambda: S.sum() >= r, lambda v: np.array([Sv(v).sum() - r]), ">="),
+        "S.trace()==r": (lambda: S.trace().eq(r), lambda v: np.array([np.trace(Sv(v)) - r]), "=="),
+        "M[0,:]>=r": (lambda: M[0, :] >= r, lambda v: Mv(v)[0, :] - r, ">="),
+        "M.T[:,0].sum()<=r": (lambda: M.T[:, 0].sum() <= r, lambda v: np.array([Mv(v).T[:, 0].sum() - r]), "<="),
+        "M.diagonal().sum()==r": (lambda: M.diagonal().sum().eq(r), lambda v: np.array([np.trace(Mv(v)) - r]), "=="),
+        "M>=r": (lambda: M >= r, lambda v: (Mv(v) - r).ravel(), ">="),
+        "S<=r": (lambda: S <= r, lambda v: (Sv(v) - r).ravel(), "<="),
+        "deep-450<=r": None,
+    }
+    P = Problem()
+    obj = x.sum() + M.sum() + S.sum()
+    if data["nonlinear"]:
+        obj = obj + (x[0] - 0.5) ** 2
+    P.minimize(obj) if data["objsense"] == "min" else P.maximize(obj if not data["nonlinear"] else x.sum() + M.sum() + S.sum() - (x[0] - 0.5) ** 2)
+    if data["form"] == "deep-450<=r":
+        e = x[0] * 1.0
+        for i in range(450):
+            e = e + (1.0 if i % 3 else -0.5) * x[i % n]
+        cons = e <= r
+        truth = lambda v: np.array([X(v)[0] + sum((1.0 if i % 3 else -0.5) * X(v)[i % n] for i in range(450)) - r])  # noqa: E731
+        sense = "<="
+    else:
+        build, truth, sense = forms[data["form"]]
+        cons = build()
+    P.subject_to(cons)
+    return P, truth, sense, keep
+
+
+CONTAINER_FORMS = ["A@x<=b", "x>=b4", "x[::-1]<=arr", "x[::2].sum()>=r", "labels:x[0:4:2]|x[0:4:3]", "x.dot(x)<=r2", "M.sum()<=r",
+                   "S.sum()>=r", "S.trace()==r", "M[0,:]>=r", "M.T[:,0].sum()<=r", "M.diagonal().sum()==r", "M>=r", "S<=r",
+                   "deep-450<=r"]
+
+
+def container_check(data):
+    try:
+        P, truth, sense, keep = container_case(data)
+    except Exception as e:  # noqa: BLE001
+        return None, "unbuildable:" + type(e).__name__
+    with warnings.catch_warnings(), np.errstate(all="ignore"):
+        warnings.simplefilter("ignore")
+        try:
+            sol = P.solve(method=data["method"])
+        except Exception as e:  # noqa: BLE001
+            return None, "raise:" + type(e).__name__
+    for arr, copy in keep:
+        if not np.array_equal(arr, copy):
+            return {"what": "a user-supplied array was modified by the solve"}, sol.status.name
+    if sol.status.name != "OPTIMAL":
+        return None, sol.status.name
+    g = np.asarray(truth(sol.values), dtype=float)
+    viol = np.maximum(0.0, g) if sense == "<=" else np.maximum(0.0, -g) if sense == ">=" else np.abs(g)
+    allowed = 1e-6 + RTOL * np.maximum(1.0, np.abs(g)) + 1e-7
+    if not np.all(viol <= allowed):     # NaN (a variable without a value) fails too
+        return {"what": "container-level constraint violated at the returned point (NumPy on the values)",
+                "residuals": g.tolist(), "values": dict(sol.values)}, "OPTIMAL"
+    bad = feasibility_report(P, sol.values, None, slack=1e-7)
+    if bad is not None:
+        bad["values"] = dict(sol.values)
+    return bad, "OPTIMAL"
+
+
+def run_container_constraints(rep, rng, thorough):
+    methods = ["auto"] + LP_METHODS + ["SLSQP", "trust-constr"]
+    i = 0
+    for form in CONTAINER_FORMS:
+        for rhs in (-6.0, -1.0, 0.5, 2.0, 30.0):
+            for method in methods:
+                i += 1
+                nonlinear = method in ("SLSQP", "trust-constr") or i % 5 == 0
+                if not thorough and nonlinear and (i % 4 or form == "deep-450<=r" and i % 8):
+                    continue
+                if not thorough and nonlinear and rhs in (-6.0, 30.0) and form not in ("x.dot(x)<=r2",):
+                    continue   # far-infeasible NLP solves run to the iteration limit
+                data = {"form": form, "rhs": rhs, "method": method, "nonlinear": nonlinear, "objsense": "min" if i % 2 else "max",
+                        "A": [[rng.choice([1.0, -1.0, 0.0, 2.0, 0.5]) for _ in range(4)] for _ in range(rng.randint(1, 3))],
+                        "b": None}
+                data["b"] = [rhs + j for j in range(len(data["A"]))]
+                if not thorough and method == "auto" and rhs in (-6.0, 30.0):
+                    try:
+                        if not container_case(data)[0]._is_linear_problem():
+                            continue   # NLP-routed and possibly far-infeasible: seconds per solve
+                    except Exception:  # noqa: BLE001
+                        pass
+                bad, status = container_check(data)
+                rep.evaluations += 1
+                tag = f"container:{form}:{status}"
+                rep.histogram[tag] = rep.histogram.get(tag, 0) + 1
+                if status == "OPTIMAL":
+                    rep.nontrivial.add(hash(("cont", form, rhs, method, nonlinear)))
+                if bad is not None:
+                    bad.update({"kind_of_case": "container", "data": data})
+                    rep.oracle_failures.append(bad)
+
+
+# ----------------------------------------------------------------------------- histories: edits between solves
+
+
+def feasibility_history(data):
+    """one Problem through solves (LP- and NLP-path methods interleaved), bound edits (tighten / loosen / cross /
+    remove), added constraints, and rebuilds of a same-named model; every OPTIMAL answer must be feasible for the
+    bounds and constraints as they are AT THAT MOMENT"""
+    from optyx import Problem, Variable
+
+    def fresh(shift):
+        vs = [Variable(nm, lb=0.0, ub=4.0) for nm in data["names"]]
+        P = Problem()
+        obj = sum((1.0 + i) * v for i, v in enumerate(vs))
+        if data["nonlinear"]:
+            obj = obj + (vs[0] - 1.0) ** 2
+        P.minimize(obj) if data["objsense"] == "min" else P.maximize(obj if not data["nonlinear"] else sum((1.0 + i) * v for i, v in enumerate(vs)) - (vs[0] - 1.0) ** 2)
+        P.subject_to(sum(vs[1:], vs[0]) >= 1.0 + shift)
+        return P, vs, [(">=", [1.0] * len(vs), 1.0 + shift)]
+    P, vs, rows = fresh(0.0)
+    n_solves = 0
+    for op in data["ops"]:
+        if op[0] == "bound":
+            v = vs[op[1] % len(vs)]
+            setattr(v, op[2], op[3])
+        elif op[0] == "constraint":
+            j = op[1] % len(vs)
+            P.subject_to(vs[j] <= op[2] if op[3] == "<=" else vs[j] >= op[2])
+            rows.append((op[3], [1.0 if t == j else 0.0 for t in range(len(vs))], op[2]))
+        elif op[0] == "rebuild":
+            P, vs, rows = fresh(op[1])
+        else:
+            with warnings.catch_warnings(), np.errstate(all="ignore"):
+                warnings.simplefilter("ignore")
+                try:
+                    sol = P.solve(method=op[1])
+                except Exception:  # noqa: BLE001
+                    continue
+            n_solves += 1
+            if sol.status.name != "OPTIMAL":
+                continue
+            xs = [sol.values.get(v.name) for v in vs]
+            if any(t is None for t in xs):
+                return {"what": "a variable has no value", "values": dict(sol.values), "after": op}, n_solves
+            for v, t in zip(vs, xs):
+                if (v.lb is not None and t < v.lb - 3e-6 - 1e-6 * abs(v.lb)) or (v.ub is not None and t > v.ub + 3e-6 + 1e-6 * abs(v.ub)):
+                    return {"what": f"OPTIMAL violates the CURRENT bounds of {v.name}", "value": t, "bounds": [v.lb, v.ub],
+                            "after": op, "values": dict(sol.values)}, n_solves
+            for sense, coef, rhs in rows:
+                g = sum(c * t for c, t in zip(coef, xs)) - rhs
+                if (sense == ">=" and g < -3e-6 - 1e-6 * abs(g)) or (sense == "<=" and g > 3e-6 + 1e-6 * abs(g)):
+                    return {"what": "OPTIMAL violates a constraint of the current model", "row": [sense, coef, rhs],
+                            "after": op, "values": dict(sol.values)}, n_solves
+    return None, n_solves
+
+
+def run_feasibility_histories(rep, rng, thorough):
+    lp = ["auto", "linprog", "highs", "highs-ds", "highs-ipm", "SLSQP", "L-BFGS-B", "trust-constr"]
+    nlp = ["auto", "SLSQP", "trust-constr", "L-BFGS-B", "BFGS", "TNC"]
+    pools = [["x1", "x10", "x2"], ["a[0]", "a[10]", "a[2]", "a"], ["x01", "x1"], ["y"], ["v9", "v10", "v11"]]
+    for i in range(400 if thorough else 70):
+        nonlinear = i % 3 == 0
+        methods = nlp if nonlinear else lp
+        ops = []
+        for _ in range(rng.randint(3, 8)):
+            r = rng.random()
+            if r < 0.4:
+                ops.append(["solve", rng.choice(methods)])
+            elif r < 0.75:
+                ops.append(["bound", rng.randint(0, 3), rng.choice(["lb", "ub"]),
+                            rng.choice([0.0, 1.0, 2.5, 3.5, 5.0, -1.0, None])])
+            elif r < 0.9:
+                ops.append(["constraint", rng.randint(0, 3), rng.choice([0.5, 1.5, 3.0]), rng.choice(["<=", ">="])])
+            else:
+                ops.append(["rebuild", rng.choice([0.0, 1.5, 6.0])])
+        ops.append(["solve", rng.choice(methods)])
+        data = {"names": pools[i % len(pools)], "nonlinear": nonlinear, "objsense": "min" if i % 2 else "max", "ops": ops}
+        bad, k = feasibility_history(data)
+        rep.evaluations += k
+        rep.histogram["feasibility-history-solves"] = rep.histogram.get("feasibility-history-solves", 0) + k
+        rep.nontrivial.add(hash(("fh", str(data))))
+        if bad is not None:
+            bad.update({"kind_of_case": "fhistory", "data": data})
+            rep.oracle_failures.append(bad)
+
+
 # ----------------------------------------------------------------------------- entry points
 
 
@@ -1162,6 +1469,9 @@ def run(ctx) -> core.Report:
     rep.exhaustive = True
     run_degenerate_rows(rep, thorough)
     run_operator_alphabet(rep, rng, thorough)
+    run_magnitudes_types(rep, rng, thorough)
+    run_container_constraints(rep, rng, thorough)
+    run_feasibility_histories(rep, rng, thorough)
     run_real_solves(rep, rng, 1500 if thorough else 150, check_feasible)
     return rep
 
@@ -1171,6 +1481,31 @@ def search(ctx, rep):
     feasibility oracle only"""
     rng = core.Rng(ctx["seed"] + 104729)
     r2 = core.Report()
+    # first: the mismatching stub rows themselves with the REAL solvers (same shape, same method, every start kind)
+    seen = set()
+    for m in rep.corr_mismatches:
+        c = m.get("case", {})
+        key = (c.get("shape"), c.get("method"))
+        if key in seen or key[0] not in SHAPES or key[1] is None:
+            continue
+        seen.add(key)
+        spec = SHAPES[key[0]]["spec"]
+        for x0 in [None] + STARTS.get(key[0], []):
+            for method in (key[1], "auto"):
+                P = build_problem(spec)[0]
+                with warnings.catch_warnings(), np.errstate(all="ignore"):
+                    warnings.simplefilter("ignore")
+                    try:
+                        sol = P.solve(method=method, **({} if x0 is None else {"x0": np.array(x0, dtype=float)}))
+                    except Exception:  # noqa: BLE001
+                        continue
+                if sol.status.name == "OPTIMAL":
+                    bad = feasibility_report(P, sol.values, None, slack=1e-7)
+                    if bad is not None:
+                        bad.update({"kind_of_case": "real", "spec": spec, "method": method})
+                        return bad
+        if len(seen) >= 12:
+            break
     metas = run_stub_table(r2, rng, True)
     stub_oracle(r2, metas)
     if r2.oracle_failures:
@@ -1207,6 +1542,11 @@ def replay(payload) -> bool:
             return True
         bad = feasibility_report(P, sol.values, c["tol"])
         print("feasibility:", bad)
+        return bad is None
+    if f.get("kind_of_case") in ("magnitude", "container", "fhistory"):
+        fn = {"magnitude": magnitude_case, "container": container_check, "fhistory": feasibility_history}[f["kind_of_case"]]
+        bad, status = fn(f["data"])
+        print(status, bad)
         return bad is None
     if f.get("kind_of_case") == "alphabet":
         bad, status = alphabet_check(f["case"])
